@@ -14,6 +14,7 @@ import (
 	"fmt"
 	"net"
 	"os"
+	"strings"
 	"testing"
 	"time"
 
@@ -47,18 +48,28 @@ type world struct {
 	config  string
 }
 
-var configs = []string{"single-cert", "single-cert-hidden-only", "multi-vhost", "multi-vhost-hidden"}
+var configs = []string{"single-cert", "single-cert-hidden-only", "multi-vhost", "multi-vhost-hidden", "multi-vhost-hidden-one-block-without-kem-key"}
 
 // vhostServerConfig mirrors the closures hopserver.NewHopServer builds around
 // hopserver.VirtualHosts (the real matcher) without binding a UDP socket.
 func vhostServerConfig(pki *fix.PKI, hiddenNames []string) (transport.ServerConfig, []*fix.Identity) {
+	return vhostServerConfigKEM(pki, hiddenNames, -1)
+}
+
+// vhostServerConfigKEM: the host block with index withoutKEM has no KEM key
+// (a block that was never meant for hidden mode but is listed for it).
+func vhostServerConfigKEM(pki *fix.PKI, hiddenNames []string, withoutKEM int) (transport.ServerConfig, []*fix.Identity) {
 	patterns := []string{"alpha.example", "*.beta.example", "gamma*", "*"}
 	var ids []*fix.Identity
 	var vhosts hopserver.VirtualHosts
 	for _, p := range patterns {
 		id := pki.IssueServer(certs.DNSName(p))
 		ids = append(ids, id)
-		tc, err := transport.MakeCert(id.Key, id.Leaf, id.Int, id.KEM)
+		kem := id.KEM
+		if len(ids)-1 == withoutKEM {
+			kem = nil
+		}
+		tc, err := transport.MakeCert(id.Key, id.Leaf, id.Int, kem)
 		if err != nil {
 			panic(err)
 		}
@@ -108,6 +119,11 @@ func newWorldFor(config string) *world {
 		cfg, ids = vhostServerConfig(w.pki, nil)
 		cfg.ClientVerify = cv
 		w.kem, w.name = ids[0].KEM, certs.DNSName("alpha.example")
+	case "multi-vhost-hidden-one-block-without-kem-key":
+		var ids []*fix.Identity
+		cfg, ids = vhostServerConfigKEM(w.pki, []string{"alpha.example", "x.beta.example", "gamma-ray"}, 0)
+		cfg.ClientVerify = cv
+		w.kem, w.name, w.hidden = ids[1].KEM, certs.DNSName("*.beta.example"), true
 	case "multi-vhost-hidden":
 		var ids []*fix.Identity
 		cfg, ids = vhostServerConfig(w.pki, []string{"alpha.example", "x.beta.example", "gamma-ray"})
@@ -136,7 +152,7 @@ func (w *world) newClient(name certs.Name, hidden bool) (*transport.Client, *sim
 		kem = &w.kem.Public
 	}
 	verify := transport.VerifyConfig{Store: w.pki.Store(), Name: name}
-	if hidden && w.config == "multi-vhost-hidden" {
+	if hidden && strings.HasPrefix(w.config, "multi-vhost-hidden") {
 		verify.Name = certs.Name{} // the hidden server picks the certificate by KEM key
 	}
 	cl := transport.NewClient(ep, w.srvAddr, fix.ClientConfig(w.client, verify, 3*time.Second, kem))
@@ -503,6 +519,25 @@ func batchRun(r *vh.Runner, c *vh.Case, cfg string, b int) {
 						}
 					}
 					out = append(out, simnet.Delivery{Data: j, Src: src, Dst: dst, Tag: "junk"})
+				}
+			}
+			if flow && len(d.Data) >= 8 && d.Data[0] == 0x04 {
+				// the server has just announced a session identifier for a
+				// handshake that is not finished: transport and control
+				// datagrams naming it, from the client's and other addresses
+				for _, n := range []int{16, 47, 48, 49, 100, 1400} {
+					for _, mt := range []byte{0x10, 0x80} {
+						j := rng.Bytes(n)
+						j[0], j[1], j[2], j[3] = mt, 0, 0, 0
+						copy(j[4:8], d.Data[4:8])
+						src := caddr
+						if rng.Chance(0.3) {
+							src = w.freshAddr()
+						}
+						out = append(out, simnet.Delivery{Data: j, Src: src, Dst: w.srvAddr, Tag: "junk-half-open-session"})
+						kinds["half-open-session-id"]++
+						total++
+					}
 				}
 			}
 			return append(out, simnet.Delivery{Data: d.Data, Src: d.Src, Dst: d.Dst})
